@@ -63,6 +63,107 @@ def _coef_sites(f):
     return out
 
 
+
+class Sym:
+    """sign * base / prod(coordinations[k] for k in divs); base = (parameter, component) or an opaque source string"""
+
+    def __init__(self, base, divs=(), sign=1, opaque=False):
+        self.base, self.divs, self.sign, self.opaque = base, tuple(sorted(divs)), sign, opaque
+
+    def key(self):
+        return (self.base, self.divs, self.sign, self.opaque)
+
+    def __repr__(self):
+        b = f"{self.base[0]}[{self.base[1]}]" if isinstance(self.base, tuple) else str(self.base)
+        return ("-" if self.sign < 0 else "") + b + "".join(f"/coordinations[{k}]" for k in self.divs)
+
+
+def symbolic_env(f, upto):
+    """forward symbolic evaluation of the straight-line assignments of f before statement `upto`:
+    variable -> set of Sym (alternatives from try/except and if/else are united)"""
+    env = {}
+    for p in f.all_params():
+        env[p] = {Sym((p, None)).key(): Sym((p, None))}
+
+    def ev(e):
+        if isinstance(e, ast.Name):
+            return list(env.get(e.id, {src(e): Sym(src(e), opaque=True)}).values())
+        if isinstance(e, ast.UnaryOp) and isinstance(e.op, ast.USub):
+            return [Sym(v.base, v.divs, -v.sign, v.opaque) for v in ev(e.operand)]
+        if isinstance(e, ast.Subscript) and isinstance(e.value, ast.Name) and isinstance(e.slice, ast.Constant):
+            out = []
+            for v in ev(e.value):
+                if isinstance(v.base, tuple) and v.base[1] is None and not v.divs:
+                    out.append(Sym((v.base[0], e.slice.value), (), v.sign))
+                else:
+                    out.append(Sym(src(e), opaque=True))
+            return out
+        if isinstance(e, ast.BinOp) and isinstance(e.op, ast.Div):
+            out = []
+            for n in ev(e.left):
+                for d in ev(e.right):
+                    if isinstance(d.base, tuple) and d.base[0] == "coordinations" and d.base[1] is not None and not d.divs \
+                            and d.sign == 1 and not n.opaque:
+                        out.append(Sym(n.base, n.divs + (d.base[1],), n.sign))
+                    else:
+                        out.append(Sym(src(e), opaque=True))
+            return out
+        return [Sym(src(e), opaque=True)]
+
+    def assign(t, vals):
+        if isinstance(t, ast.Name):
+            env[t.id] = {v.key(): v for v in vals}
+
+    def run(stmts, merge):
+        for st in stmts:
+            if st is upto:
+                return True
+            if isinstance(st, ast.Assign):
+                for t in st.targets:
+                    if isinstance(t, ast.Tuple) and isinstance(st.value, ast.Tuple) and len(t.elts) == len(st.value.elts):
+                        vals = [ev(x) for x in st.value.elts]
+                        for tt, vv in zip(t.elts, vals):
+                            assign(tt, vv)
+                    elif isinstance(t, ast.Tuple):
+                        whole = ev(st.value)
+                        for i, tt in enumerate(t.elts):
+                            comp = []
+                            for v in whole:
+                                if isinstance(v.base, tuple) and v.base[1] is None and not v.divs:
+                                    comp.append(Sym((v.base[0], i), (), v.sign))
+                                else:
+                                    comp.append(Sym(f"{src(st.value)}[{i}]", opaque=True))
+                            assign(tt, comp)
+                    else:
+                        assign(t, ev(st.value))
+            elif isinstance(st, ast.Try):
+                before = {k: dict(v) for k, v in env.items()}
+                if run(st.body, merge):
+                    return True
+                after_body = {k: dict(v) for k, v in env.items()}
+                for h in st.handlers:
+                    env.clear()
+                    env.update({k: dict(v) for k, v in before.items()})
+                    run(h.body, merge)
+                    for k, v in env.items():
+                        after_body.setdefault(k, {}).update(v)
+                env.clear()
+                env.update(after_body)
+            elif isinstance(st, ast.If):
+                before = {k: dict(v) for k, v in env.items()}
+                run(st.body, merge)
+                a = {k: dict(v) for k, v in env.items()}
+                env.clear()
+                env.update(before)
+                run(st.orelse, merge)
+                for k, v in a.items():
+                    env.setdefault(k, {}).update(v)
+        return False
+
+    run(f.node.body, True)
+    return ev
+
+
 def check_terms(prog, ctx):
     rid = "R19.1"
     for fq in BUILDERS:
@@ -72,6 +173,7 @@ def check_terms(prog, ctx):
         terms = [a for a in walk_own(f.node) if isinstance(a, ast.Assign) and src(a.targets[0]) == "terms"]
         ctx.need(len(terms) == 1 and isinstance(terms[0].value, (ast.Tuple, ast.List)), f"{f.qualname}: literal `terms` not found")
         n_onsite = 0
+        ev = symbolic_env(f, terms[0])
         for t in terms[0].value.elts:
             ctx.need(isinstance(t, ast.Tuple) and len(t.elts) == 2, f"{f.qualname}: term {src(t)} is not (coeff, ops)")
             coeff, opl = t.elts
@@ -83,24 +185,25 @@ def check_terms(prog, ctx):
             if len(sites) == 1:
                 k = next(iter(sites))
                 n_onsite += 1
-                c = coeff
-                if isinstance(c, ast.UnaryOp) and isinstance(c.op, ast.USub):
-                    c = c.operand
-                ok = isinstance(c, ast.BinOp) and isinstance(c.op, ast.Div)
-                why = "is not of the form +-X / coordinations[k]"
-                if ok:
-                    num, den = c.left, c.right
-                    if isinstance(num, ast.UnaryOp) and isinstance(num.op, ast.USub):
-                        num = num.operand
-                    ok = src(den) == f"coordinations[{k}]"
-                    why = f"is divided by {src(den)}, not by the coordination of its own site coordinations[{k}]"
-                    if ok:
-                        ok = isinstance(num, ast.Name) and num.id in coefs and coefs[num.id][0] == k
-                        why = f"uses coefficient {src(num)}, which is not site {k}'s component"
+                vals = ev(coeff)
+                ok = True
+                why = ""
+                for v in vals:
+                    if v.opaque or not isinstance(v.base, tuple):
+                        ok, why = False, f"cannot be reduced to +-X / coordinations[k] (it is `{v}`)"
+                    elif v.divs != (k,):
+                        ok, why = False, (f"is divided by {['coordinations[%d]' % d for d in v.divs] or 'nothing'}, "
+                                          f"not exactly once by the coordination of its own site coordinations[{k}]")
+                    elif v.base[1] not in (k, None):
+                        ok, why = False, f"uses component {v.base[1]} of `{v.base[0]}`, which is not site {k}'s coefficient"
+                    if not ok:
+                        break
                 ctx.check(ok, rid, f, t, src(t)[:90],
-                          f"on-site term on site {k}: coefficient `{src(coeff)}` " + ("is that site's coefficient divided by that site's coordination" if ok else why))
+                          f"on-site term on site {k}: coefficient `{src(coeff)}` = {sorted(map(repr, vals))} "
+                          + ("is that site's coefficient divided once by that site's coordination" if ok else why))
             else:
-                ok = "coordinations" not in src(coeff)
+                vals = ev(coeff)
+                ok = all(not v.divs for v in vals) and "coordinations" not in src(coeff)
                 ctx.check(ok, rid, f, t, src(t)[:90], f"two-site term: coefficient `{src(coeff)}` is not divided by a coordination")
         ctx.need(n_onsite >= 2, f"{f.qualname}: fewer than two on-site terms found")
         d = f.defaults().get("coordinations")
